@@ -200,12 +200,16 @@ func (s Site) Break(t *verifsim.Tape, d *spec.Design, loc Loc) bool {
 				return false
 			}
 			nv = x[:*v0.MinLength-1]
-			if len(nv.([]any)) == 0 && loc != LocBody {
+			if len(nv.([]any)) == 0 {
+				// an empty collection is dropped from the wire (omitempty): indistinguishable from unset
 				return false
 			}
 		case []byte:
 			nv = x[:*v0.MinLength-1]
 		case *MapVal:
+			if *v0.MinLength-1 == 0 {
+				return false
+			}
 			nv = &MapVal{K: x.K[:*v0.MinLength-1], V: x.V[:*v0.MinLength-1]}
 		default:
 			return false
